@@ -319,9 +319,19 @@ def get_logical_instruction_at_offset(
 
             argval = arg
 
-            # create a localsplusnames table that resolves duplicates.
-            localsplusnames = (varnames or tuple()) + tuple(
-                name for name in (cells or tuple()) if name not in varnames
+            # create a localsplusnames table that resolves duplicates: a
+            # cell variable that is also a local shares the local's slot;
+            # a free variable always has a slot of its own, even when a
+            # local (e.g. the variable of an inlined comprehension) has the
+            # same name.
+            all_cells = cells or tuple()
+            n_cellvars = getattr(all_cells, "n_cellvars", len(all_cells))
+            localsplusnames = (
+                (varnames or tuple())
+                + tuple(
+                    name for name in all_cells[:n_cellvars] if name not in varnames
+                )
+                + tuple(all_cells[n_cellvars:])
             )
 
             if op in opc.CONST_OPS:
@@ -493,6 +503,20 @@ def get_instructions_bytes(
         offset = next_offset(instruction.opcode, opc, instruction.offset)
 
 
+class CellAndFreeNames(tuple):
+    """``co_cellvars + co_freevars`` of a code object, which is what cell
+    and free variable operands index before 3.11, together with how many
+    of the names are cell variables. From 3.11 on operands index the
+    combined "localsplus" table instead, and to rebuild that one has to
+    know where the free variables start.
+    """
+
+    def __new__(cls, cellvars, freevars):
+        self = super().__new__(cls, tuple(cellvars) + tuple(freevars))
+        self.n_cellvars = len(cellvars)
+        return self
+
+
 class Bytecode:
     """Bytecode operations involving a Python code object.
 
@@ -513,7 +537,7 @@ class Bytecode:
                 self.first_line = first_line
                 self._line_offset = first_line - co.co_firstlineno
             if opc.version_tuple > (2, 0):
-                self._cell_names = co.co_cellvars + co.co_freevars
+                self._cell_names = CellAndFreeNames(co.co_cellvars, co.co_freevars)
                 pass
             pass
 
@@ -808,7 +832,7 @@ class Bytecode:
         the disassembled code object.
         """
         co = get_code_object(x)
-        cell_names = co.co_cellvars + co.co_freevars
+        cell_names = CellAndFreeNames(co.co_cellvars, co.co_freevars)
         line_starts = dict(self.opc.findlinestarts(co))
         if first_line is not None:
             line_offset = first_line - co.co_firstlineno
